@@ -118,7 +118,7 @@ fn gen_spec(ch: &mut Ch) -> IsoSpec {
         });
     }
     IsoSpec {
-        server: ServerCfg { budget, expiry_ns: 1_000_000 * SEC, check_wire: false, snapshots: false, feed_all_types: false, record_held: false },
+        server: ServerCfg { budget, expiry_ns: 1_000_000 * SEC, check_wire: false, snapshots: false, feed_all_types: false, record_held: false, held_every: 1, held_always_from: 0 },
         resources,
         clients,
         pct: ch.below(2, "iso.pct") == 1,
